@@ -1,16 +1,38 @@
-/* Correspondence harness for qlist.c / qqueue.c / qstack.c / qgrow.c (property C09).
- * One operation per input line, one result line per operation (see lean/Driver/Seq.lean).
+/* Correspondence harness for qlist.c / qqueue.c / qstack.c / qgrow.c (property C09, and the
+ * list-family part of C11 / C12 / C15). Linked against libqw.a: the library's allocator calls go
+ * through harness/allocwrap.h. One operation per input line, one result line per operation (see
+ * lean/Driver/Seq.lean).
  *
- *   new list|queue|stack|grow      start a fresh container (the previous one is freed)
+ *   new list|queue|stack|grow [opt]  start a fresh container (the previous one is freed);
+ *                                    bit 1 of opt = QLIST_THREADSAFE
+ *   fault k | faultfrom k            fail the k-th allocation (all from the k-th on) of the next
+ *                                    windowed call
+ *   end                              free the container, re-check the kept copies:
+ *                                    `end live=<blocks still allocated> bad=<changed copies>`
  *
  * Every result line has three parts
- *   <result of the call>  sz=.. [dsz=..] obs=[..]   |   num=.. max=.. sum=.. [..] back=ok
- * the first two are what the public API returns (the property oracle reads only those: obs is the
- * content read back with getat(i) / toarray), the part after `|` is the private state reached
- * through the public structs (first/next chain, last/prev chain, counters) and is there for the
- * correspondence with the mechanism-level model only. */
+ *   [allocs=<n>] <result of the call>  sz=.. [dsz=..] obs=[..]   |   live=.. num=.. max=.. sum=.. [..] back=ok
+ * `allocs=` = allocation attempts inside the call (windowed calls only). The first two parts are
+ * what the public API returns (the property oracle reads only those: obs is the content read back
+ * with getat(i) / toarray), the part after `|` is the private state reached through the public
+ * structs (first/next chain, last/prev chain, counters) plus the number of blocks the library
+ * owns, and is there for the correspondence with the mechanism-level model (the C11 oracle
+ * reads live=). Caller buffers are overwritten and freed right after the call they were given to;
+ * every copy the library hands out is kept with a private duplicate until the container is gone
+ * (harness/seqkeep.h). */
 #include "common.h"
+#include "allocwrap.h"
+#include "seqkeep.h"
 #include "qlibc.h"
+
+/* C15/C11: `fault k` / `faultfrom k` arm an allocation failure for the next WINDOWED library
+ * call (every call whose result line starts with `allocs=<n> `, the number of allocation
+ * attempts the library made inside that call); `live=<n>` in the private part of every result
+ * line is the number of blocks the library owns; `end` releases the container and the kept
+ * copies and prints `end live=<n> bad=<n>`. */
+static int E;       /* errno of the windowed call */
+static long A;      /* allocation attempts of the windowed call */
+#define WIN(stmt) do { errno = 0; aw_begin(); stmt; E = errno; A = aw_end(); printf("allocs=%ld ", A); } while (0)
 
 enum { K_NONE, K_LIST, K_QUEUE, K_STACK, K_GROW };
 static int kind = K_NONE;
@@ -39,7 +61,7 @@ static qlist_t *inner(void) {
 }
 
 static void dump_private(qlist_t *l) {
-    printf(" | num=%zu max=%zu sum=%zu [", l->num, l->max, l->datasum);
+    printf(" | live=%ld num=%zu max=%zu sum=%zu [", live_blocks(), l->num, l->max, l->datasum);
     size_t n = 0, cap = 16;
     qlist_obj_t **fw = malloc(cap * sizeof(*fw));
     for (qlist_obj_t *o = l->first; o != NULL; o = o->next) {
@@ -81,7 +103,7 @@ static void dump(void) {
         printf(" sz=%zu dsz=%zu arr=", sz, qgrow_datasize(G));
         if (a == NULL) printf("null"); else puthex(stdout, a, asz);
         printf("/%zu", asz);
-        free(a);
+        vf_free(a);
         dump_private(G->list);
         return;
     } else {
@@ -94,7 +116,7 @@ static void dump(void) {
                                   : qstack_getat(S, (int) i, &esz, true);
         if (i) printf(",");
         if (d == NULL) printf("null"); else puthex(stdout, d, esz);
-        free(d);
+        vf_free(d);
     }
     printf("]");
     dump_private(inner());
@@ -108,13 +130,13 @@ static void res_bool(bool b, int e) {
 static void res_data(void *d, size_t sz, int e, bool own) {
     if (d == NULL) { printf("null %s", errname(e)); return; }
     printf("data "); puthex(stdout, d, sz);
-    if (own) free(d);
+    if (own) keep(d, sz);
 }
 
 static void res_str(char *s, int e) {
     if (s == NULL) { printf("null %s", errname(e)); return; }
     printf("str "); puthex(stdout, s, strlen(s));
-    free(s);
+    keep(s, strlen(s) + 1);
 }
 
 static int do_list(int nw, char **w) {
@@ -127,53 +149,55 @@ static int do_list(int nw, char **w) {
         printf("old %zu", old);
     } else if ((!strcmp(op, "addfirst") || !strcmp(op, "addlast")) && nw == 2) {
         if (!unhex(w[1], &a)) return 0;
-        errno = 0;
-        bool r = op[3] == 'f' ? qlist_addfirst(L, a.p, a.n) : qlist_addlast(L, a.p, a.n);
-        int e = errno; res_bool(r, e); free(a.p);
+        bool r;
+        WIN(r = op[3] == 'f' ? qlist_addfirst(L, a.p, a.n) : qlist_addlast(L, a.p, a.n));
+        scribble_free(&a); res_bool(r, E);
     } else if (!strcmp(op, "addat") && nw == 3) {
         if (!unhex(w[2], &a)) return 0;
-        errno = 0;
-        bool r = qlist_addat(L, atoi(w[1]), a.p, a.n);
-        int e = errno; res_bool(r, e); free(a.p);
+        bool r;
+        WIN(r = qlist_addat(L, atoi(w[1]), a.p, a.n));
+        scribble_free(&a); res_bool(r, E);
     } else if (!strcmp(op, "addnull") && nw == 2) {
-        bool r = qlist_addat(L, atoi(w[1]), NULL, 1);
-        int e = errno; res_bool(r, e);
+        bool r;
+        WIN(r = qlist_addat(L, atoi(w[1]), NULL, 1));
+        res_bool(r, E);
     } else if (!strcmp(op, "getfirst") && nw == 2) {
-        bool nm = atoi(w[1]);
-        void *d = qlist_getfirst(L, &sz, nm); int e = errno; res_data(d, sz, e, nm);
+        bool nm = atoi(w[1]); void *d;
+        WIN(d = qlist_getfirst(L, &sz, nm)); res_data(d, sz, E, nm);
     } else if (!strcmp(op, "getlast") && nw == 2) {
-        bool nm = atoi(w[1]);
-        void *d = qlist_getlast(L, &sz, nm); int e = errno; res_data(d, sz, e, nm);
+        bool nm = atoi(w[1]); void *d;
+        WIN(d = qlist_getlast(L, &sz, nm)); res_data(d, sz, E, nm);
     } else if (!strcmp(op, "getat") && nw == 3) {
-        bool nm = atoi(w[2]);
-        void *d = qlist_getat(L, atoi(w[1]), &sz, nm); int e = errno; res_data(d, sz, e, nm);
+        bool nm = atoi(w[2]); void *d;
+        WIN(d = qlist_getat(L, atoi(w[1]), &sz, nm)); res_data(d, sz, E, nm);
     } else if (!strcmp(op, "popfirst") && nw == 1) {
-        void *d = qlist_popfirst(L, &sz); int e = errno; res_data(d, sz, e, true);
+        void *d; WIN(d = qlist_popfirst(L, &sz)); res_data(d, sz, E, true);
     } else if (!strcmp(op, "poplast") && nw == 1) {
-        void *d = qlist_poplast(L, &sz); int e = errno; res_data(d, sz, e, true);
+        void *d; WIN(d = qlist_poplast(L, &sz)); res_data(d, sz, E, true);
     } else if (!strcmp(op, "popat") && nw == 2) {
-        void *d = qlist_popat(L, atoi(w[1]), &sz); int e = errno; res_data(d, sz, e, true);
+        void *d; WIN(d = qlist_popat(L, atoi(w[1]), &sz)); res_data(d, sz, E, true);
     } else if (!strcmp(op, "removefirst") && nw == 1) {
-        bool r = qlist_removefirst(L); int e = errno; res_bool(r, e);
+        bool r; WIN(r = qlist_removefirst(L)); res_bool(r, E);
     } else if (!strcmp(op, "removelast") && nw == 1) {
-        bool r = qlist_removelast(L); int e = errno; res_bool(r, e);
+        bool r; WIN(r = qlist_removelast(L)); res_bool(r, E);
     } else if (!strcmp(op, "removeat") && nw == 2) {
-        bool r = qlist_removeat(L, atoi(w[1])); int e = errno; res_bool(r, e);
+        bool r; WIN(r = qlist_removeat(L, atoi(w[1]))); res_bool(r, E);
     } else if (!strcmp(op, "size") && nw == 1) {
         printf("n %zu", qlist_size(L));
     } else if (!strcmp(op, "datasize") && nw == 1) {
         printf("n %zu", qlist_datasize(L));
     } else if (!strcmp(op, "reverse") && nw == 1) {
-        qlist_reverse(L); printf("ok");
+        WIN(qlist_reverse(L)); printf("ok");
     } else if (!strcmp(op, "clear") && nw == 1) {
-        qlist_clear(L); printf("ok");
+        WIN(qlist_clear(L)); printf("ok");
     } else if (!strcmp(op, "toarray") && nw == 1) {
         sz = 7777;
-        void *d = qlist_toarray(L, &sz); int e = errno;
-        res_data(d, sz, e, true); printf(" size=%zu", sz);
+        void *d; WIN(d = qlist_toarray(L, &sz));
+        res_data(d, sz, E, true); printf(" size=%zu", sz);
     } else if (!strcmp(op, "tostring") && nw == 1) {
-        char *s = qlist_tostring(L); int e = errno; res_str(s, e);
+        char *s; WIN(s = qlist_tostring(L)); res_str(s, E);
     } else if (!strcmp(op, "walk") && nw == 2) {
+        /* not a windowed call (many library calls): an armed failure stays armed */
         bool nm = atoi(w[1]);
         qlist_obj_t o; memset(&o, 0, sizeof(o));
         printf("walk");
@@ -181,7 +205,7 @@ static int do_list(int nw, char **w) {
         errno = 0;
         while (qlist_getnext(L, &o, nm)) {
             printf(" "); puthex(stdout, o.data, o.size);
-            if (nm) free(o.data);
+            if (nm) keep(o.data, o.size);
             errno = 0;
             if (guard-- == 0) { printf(" ENDLESS"); break; }
         }
@@ -189,14 +213,20 @@ static int do_list(int nw, char **w) {
     } else if (!strcmp(op, "reset") && nw == 1) {
         memset(&cur, 0, sizeof(cur)); printf("ok");
     } else if (!strcmp(op, "next") && nw == 2) {
-        bool nm = atoi(w[1]);
-        bool r = qlist_getnext(L, &cur, nm); int e = errno;
-        if (r) { printf("data "); puthex(stdout, cur.data, cur.size); if (nm) free(cur.data); }
-        else printf("false %s", errname(e));
+        bool nm = atoi(w[1]); bool r;
+        WIN(r = qlist_getnext(L, &cur, nm));
+        if (r) { printf("data "); puthex(stdout, cur.data, cur.size); if (nm) keep(cur.data, cur.size); }
+        else printf("false %s", errname(E));
     } else {
         return 0;
     }
     return 1;
+}
+
+/* popint/getint return a plain int64_t: an allocation failure is visible in errno only */
+static void res_int(int64_t v, int e) {
+    printf("int %lld", (long long) v);
+    if (e == ENOMEM) printf(" ENOMEM");
 }
 
 /* queue and stack have the same interface */
@@ -211,51 +241,48 @@ static int do_qs(int nw, char **w) {
         printf("old %zu", q ? qqueue_setsize(Q, m) : qstack_setsize(S, m));
     } else if (!strcmp(op, "push") && nw == 2) {
         if (!unhex(w[1], &a)) return 0;
-        errno = 0;
-        bool r = q ? qqueue_push(Q, a.p, a.n) : qstack_push(S, a.p, a.n);
-        int e = errno; res_bool(r, e); free(a.p);
+        bool r;
+        WIN(r = q ? qqueue_push(Q, a.p, a.n) : qstack_push(S, a.p, a.n));
+        scribble_free(&a); res_bool(r, E);
     } else if (!strcmp(op, "pushstr") && nw == 2) {
         bool r;
         if (!strcmp(w[1], "null")) {
-            r = q ? qqueue_pushstr(Q, NULL) : qstack_pushstr(S, NULL);
+            WIN(r = q ? qqueue_pushstr(Q, NULL) : qstack_pushstr(S, NULL));
         } else {
             if (!unhex(w[1], &a)) return 0;
             char *s = cstr_exact(&a);
-            errno = 0;
-            r = q ? qqueue_pushstr(Q, s) : qstack_pushstr(S, s);
-            int e0 = errno; free(s); free(a.p); errno = e0;
+            WIN(r = q ? qqueue_pushstr(Q, s) : qstack_pushstr(S, s));
+            memset(s, 0xAA, a.n + 1); free(s); scribble_free(&a);
         }
-        int e = errno; res_bool(r, e);
+        res_bool(r, E);
     } else if (!strcmp(op, "pushint") && nw == 2) {
         int64_t v = strtoll(w[1], NULL, 10);
-        errno = 0;
-        bool r = q ? qqueue_pushint(Q, v) : qstack_pushint(S, v);
-        int e = errno; res_bool(r, e);
+        bool r;
+        WIN(r = q ? qqueue_pushint(Q, v) : qstack_pushint(S, v));
+        res_bool(r, E);
     } else if (!strcmp(op, "pop") && nw == 1) {
-        void *d = q ? qqueue_pop(Q, &sz) : qstack_pop(S, &sz); int e = errno; res_data(d, sz, e, true);
+        void *d; WIN(d = q ? qqueue_pop(Q, &sz) : qstack_pop(S, &sz)); res_data(d, sz, E, true);
     } else if (!strcmp(op, "popstr") && nw == 1) {
-        char *s = q ? qqueue_popstr(Q) : qstack_popstr(S); int e = errno; res_str(s, e);
+        char *s; WIN(s = q ? qqueue_popstr(Q) : qstack_popstr(S)); res_str(s, E);
     } else if (!strcmp(op, "popint") && nw == 1) {
-        int64_t v = q ? qqueue_popint(Q) : qstack_popint(S);
-        printf("int %lld", (long long) v);
+        int64_t v; WIN(v = q ? qqueue_popint(Q) : qstack_popint(S)); res_int(v, E);
     } else if (!strcmp(op, "popat") && nw == 2) {
         int i = atoi(w[1]);
-        void *d = q ? qqueue_popat(Q, i, &sz) : qstack_popat(S, i, &sz); int e = errno; res_data(d, sz, e, true);
+        void *d; WIN(d = q ? qqueue_popat(Q, i, &sz) : qstack_popat(S, i, &sz)); res_data(d, sz, E, true);
     } else if (!strcmp(op, "get") && nw == 2) {
         bool nm = atoi(w[1]);
-        void *d = q ? qqueue_get(Q, &sz, nm) : qstack_get(S, &sz, nm); int e = errno; res_data(d, sz, e, nm);
+        void *d; WIN(d = q ? qqueue_get(Q, &sz, nm) : qstack_get(S, &sz, nm)); res_data(d, sz, E, nm);
     } else if (!strcmp(op, "getstr") && nw == 1) {
-        char *s = q ? qqueue_getstr(Q) : qstack_getstr(S); int e = errno; res_str(s, e);
+        char *s; WIN(s = q ? qqueue_getstr(Q) : qstack_getstr(S)); res_str(s, E);
     } else if (!strcmp(op, "getint") && nw == 1) {
-        int64_t v = q ? qqueue_getint(Q) : qstack_getint(S);
-        printf("int %lld", (long long) v);
+        int64_t v; WIN(v = q ? qqueue_getint(Q) : qstack_getint(S)); res_int(v, E);
     } else if (!strcmp(op, "getat") && nw == 3) {
         int i = atoi(w[1]); bool nm = atoi(w[2]);
-        void *d = q ? qqueue_getat(Q, i, &sz, nm) : qstack_getat(S, i, &sz, nm); int e = errno; res_data(d, sz, e, nm);
+        void *d; WIN(d = q ? qqueue_getat(Q, i, &sz, nm) : qstack_getat(S, i, &sz, nm)); res_data(d, sz, E, nm);
     } else if (!strcmp(op, "size") && nw == 1) {
         printf("n %zu", q ? qqueue_size(Q) : qstack_size(S));
     } else if (!strcmp(op, "clear") && nw == 1) {
-        if (q) qqueue_clear(Q); else qstack_clear(S);
+        WIN(if (q) qqueue_clear(Q); else qstack_clear(S));
         printf("ok");
     } else {
         return 0;
@@ -270,31 +297,30 @@ static int do_grow(int nw, char **w) {
     errno = 0;
     if (!strcmp(op, "add") && nw == 2) {
         if (!unhex(w[1], &a)) return 0;
-        errno = 0;
-        bool r = qgrow_add(G, a.p, a.n); int e = errno; res_bool(r, e); free(a.p);
+        bool r; WIN(r = qgrow_add(G, a.p, a.n)); scribble_free(&a); res_bool(r, E);
     } else if (!strcmp(op, "addstr") && nw == 2) {
         if (!unhex(w[1], &a)) return 0;
         char *s = cstr_exact(&a);
-        errno = 0;
-        bool r = qgrow_addstr(G, s); int e = errno; res_bool(r, e); free(s); free(a.p);
+        bool r; WIN(r = qgrow_addstr(G, s));
+        memset(s, 0xAA, a.n + 1); free(s); scribble_free(&a); res_bool(r, E);
     } else if (!strcmp(op, "addstrf") && nw == 3) {
         /* fixed format "%s=%d" */
         if (!unhex(w[1], &a)) return 0;
         char *s = cstr_exact(&a);
-        errno = 0;
-        bool r = qgrow_addstrf(G, "%s=%d", s, atoi(w[2])); int e = errno; res_bool(r, e); free(s); free(a.p);
+        bool r; WIN(r = qgrow_addstrf(G, "%s=%d", s, atoi(w[2])));
+        memset(s, 0xAA, a.n + 1); free(s); scribble_free(&a); res_bool(r, E);
     } else if (!strcmp(op, "size") && nw == 1) {
         printf("n %zu", qgrow_size(G));
     } else if (!strcmp(op, "datasize") && nw == 1) {
         printf("n %zu", qgrow_datasize(G));
     } else if (!strcmp(op, "toarray") && nw == 1) {
         sz = 7777;
-        void *d = qgrow_toarray(G, &sz); int e = errno;
-        res_data(d, sz, e, true); printf(" size=%zu", sz);
+        void *d; WIN(d = qgrow_toarray(G, &sz));
+        res_data(d, sz, E, true); printf(" size=%zu", sz);
     } else if (!strcmp(op, "tostring") && nw == 1) {
-        char *s = qgrow_tostring(G); int e = errno; res_str(s, e);
+        char *s; WIN(s = qgrow_tostring(G)); res_str(s, E);
     } else if (!strcmp(op, "clear") && nw == 1) {
-        qgrow_clear(G); printf("ok");
+        WIN(qgrow_clear(G)); printf("ok");
     } else {
         return 0;
     }
@@ -303,19 +329,39 @@ static int do_grow(int nw, char **w) {
 
 int main(void) {
     char *line = NULL; size_t cap = 0; ssize_t len;
-    setvbuf(stdout, NULL, _IOFBF, 1 << 16);
+    harness_init();
     while ((len = getline(&line, &cap, stdin)) > 0) {
         char *w[MAXW]; int nw = split_words(line, w);
         if (nw == 0) continue;
         int done = 0;
-        if (!strcmp(w[0], "new") && nw == 2) {
+        if ((!strcmp(w[0], "fault") || !strcmp(w[0], "faultfrom")) && nw == 2) {
+            aw_arm(atol(w[1]), w[0][5] == 'f');
+            printf("ok\n"); fflush(stdout); continue;
+        }
+        if (!strcmp(w[0], "end") && nw == 1) {
+            /* C11: once the container is released every block it allocated is freed;
+             * C12: the copies handed out have survived the release */
             free_all();
+            long bad = check_kept();
+            printf("end live=%ld bad=%ld\n", aw_live, bad); fflush(stdout); continue;
+        }
+        if (!strcmp(w[0], "new") && (nw == 2 || nw == 3)) {
+            int opt = nw == 3 ? atoi(w[2]) : 0;
+            int k = !strcmp(w[1], "list") ? K_LIST : !strcmp(w[1], "queue") ? K_QUEUE
+                  : !strcmp(w[1], "stack") ? K_STACK : !strcmp(w[1], "grow") ? K_GROW : K_NONE;
+            if (k == K_NONE) { printf("bad-op\n"); fflush(stdout); continue; }
+            free_all();
+            long bad = check_kept();
             memset(&cur, 0, sizeof(cur));
-            if (!strcmp(w[1], "list")) { L = qlist(0); kind = K_LIST; }
-            else if (!strcmp(w[1], "queue")) { Q = qqueue(0); kind = K_QUEUE; }
-            else if (!strcmp(w[1], "stack")) { S = qstack(0); kind = K_STACK; }
-            else if (!strcmp(w[1], "grow")) { G = qgrow(0); kind = K_GROW; }
-            if (kind != K_NONE) { printf("ok"); done = 1; }
+            void *p = NULL;
+            if (k == K_LIST) { WIN(L = qlist(opt)); p = L; }
+            else if (k == K_QUEUE) { WIN(Q = qqueue(opt)); p = Q; }
+            else if (k == K_STACK) { WIN(S = qstack(opt)); p = S; }
+            else { WIN(G = qgrow(opt)); p = G; }
+            if (bad) printf("KEPT-BAD=%ld ", bad);
+            if (p == NULL) { printf("null %s live=%ld\n", errname(E), live_blocks()); fflush(stdout); continue; }
+            kind = k;
+            printf("ok"); done = 1;
         } else if (kind == K_LIST) done = do_list(nw, w);
         else if (kind == K_QUEUE || kind == K_STACK) done = do_qs(nw, w);
         else if (kind == K_GROW) done = do_grow(nw, w);
@@ -326,5 +372,6 @@ int main(void) {
     }
     free(line);
     free_all();
+    check_kept(); free(kept);
     return 0;
 }
